@@ -282,6 +282,7 @@ def djs_reject(data, model, outmask=None, inmask=None, sigma=None,
     if inmask is not None:
         if data.shape != inmask.shape:
             raise ValueError('Dimensions of data and inmask do not agree.')
+        inmask = inmask != 0
     if maxrej is not None:
         if groupdim is not None:
             if len(maxrej) != len(groupdim):
